@@ -144,9 +144,10 @@ def pSteps : P (List Step)
   | _ => none
 
 /-- `ok <Value>` (the reading of the whole root afterwards), `refused`, `panic`; `unsupported` when the
-input does not type-check or the result cannot be read -/
+input does not type-check (`hasTypeB (2^64)`: every uint in the range of Go's 64-bit uint) or the result
+cannot be read -/
 def encSetOutcome (t : GoType) (root : GoVal) (o : SetOutcome) : String :=
-  if !GoVal.hasType t root then "unsupported"
+  if !GoVal.hasTypeB (2 ^ 64) t root then "unsupported"
   else match o with
     | .ok root' =>
       (match reflectV t root' with
